@@ -769,14 +769,22 @@ class AuthServer(Server):
         super().__init__()
         self.valid = set(valid)
         self.latency = latency
-        self.closed_at: dict[int, float] = {}
+        self.closed_at: dict[int, float] = {}      # credentials value -> first time a session with it was closed
+        self.closed_sessions: list[int] = []       # serials of the sessions closed (= items invalidated)
+        self.n_sessions = 0
 
 
 class AuthSession(CredSession):
+    def __init__(self, server: 'AuthServer', cred: Any = None) -> None:
+        super().__init__(server, cred)
+        server.n_sessions += 1
+        self.serial = server.n_sessions
+
     async def request(self, method: str, url: str, json: Any = None, headers: Any = None, timeout: Any = None) -> FakeResponse:
         loop = asyncio.get_running_loop()
         task = asyncio.current_task()
-        rec = {'t': loop.time(), 'cred': self.cred, 'closed': self.closed, 'task': task.get_name() if task else None}
+        rec = {'t': loop.time(), 'cred': self.cred, 'sess': self.serial, 'closed': self.closed,
+               'task': task.get_name() if task else None}
         self.server.log.append(rec)
         if self.closed:
             rec['fault'] = ('closed-session',)
@@ -794,6 +802,8 @@ class AuthSession(CredSession):
         return FakeResponse(200, {}, {})
 
     async def close(self) -> None:
+        if not self.closed:
+            self.server.closed_sessions.append(self.serial)
         self.closed = True
         self.server.closed_at.setdefault(self.cred, asyncio.get_running_loop().time())
 
@@ -944,6 +954,7 @@ def run_vault(case: dict) -> dict:
     out['log'] = log
     out['server_log'] = server.log
     out['closed_at'] = dict(server.closed_at)
+    out['closed_sessions'] = list(server.closed_sessions)
     return out
 
 
@@ -1044,7 +1055,7 @@ def match_f1203(f: dict) -> bool:
 def vault_case(ctx: fw.Ctx, case: dict, T: list) -> None:
     out = run_vault(case)
     slog = out['server_log']
-    n401_creds = sorted({rec['cred'] for rec in slog if rec.get('fault', ('',))[0] == 'status'})
+    n401_creds = sorted({rec['sess'] for rec in slog if rec.get('fault', ('',))[0] == 'status'})   # distinct sessions = items
     single_key = len(case['init']) == 1
     fresh_only = all(len(s['give']) == 1 and s['give'][0][3] for s in case['logins'][:len(out['logins'])])
     ctx.count('vault_requesters', str(len(case['requesters'])))
@@ -1062,12 +1073,12 @@ def vault_case(ctx: fw.Ctx, case: dict, T: list) -> None:
         step = case['logins'][i] if i < len(case['logins']) else {'give': []}
         if not step['give'] or all(c in out['closed_at'] for _, c, _, _ in step['give']):
             barren += 1
-    if len(out['logins']) > len(out['closed_at']) + barren:
+    if len(out['logins']) > len(out['closed_sessions']) + barren:
         ctx.fail('more re-authentications than invalidated credentials', case,
-                 observed={'logins': out['logins'], 'invalidated': sorted(out['closed_at'])}, sig='extra-reauth')
+                 observed={'logins': out['logins'], 'invalidated_sessions': out['closed_sessions']}, sig='extra-reauth')
     if single_key and fresh_only and len(out['logins']) != len(n401_creds):
         ctx.fail('a burst of 401s on the same credentials did not cause exactly one re-authentication', case,
-                 observed={'logins': out['logins'], 'creds_answered_401': n401_creds}, sig='reauth-count')
+                 observed={'logins': out['logins'], 'sessions_answered_401': n401_creds}, sig='reauth-count')
     # (2) invalidated credentials are not used again (requests that reach the server)
     inval_order = sorted(out['closed_at'], key=lambda c: out['closed_at'][c])
     for rec in slog:
@@ -1356,7 +1367,7 @@ def run(ctx: fw.Ctx) -> int:
             request_case(ctx, c['case'], D_req)
     for c in exhaustive_request_cases(ctx.scale(3, 5)):
         request_case(ctx, c, D_req)
-    for _ in range(ctx.scale(1200, 30000)):
+    for _ in range(ctx.scale(3000, 40000)):
         c = gen_request_case(r)
         request_case(ctx, c, D_req)
         ctx.sample({'request': c}, limit=2)
@@ -1364,7 +1375,7 @@ def run(ctx: fw.Ctx) -> int:
 
     # ---------------- @authenticated around api.request ----------------
     D_call: list[fw.Case] = []
-    for _ in range(ctx.scale(300, 6000)):
+    for _ in range(ctx.scale(600, 8000)):
         c = gen_call_case(r)
         call_case(ctx, c, D_call)
         ctx.sample({'call': c}, limit=3)
@@ -1375,7 +1386,7 @@ def run(ctx: fw.Ctx) -> int:
     for c in corpus:
         if c.get('kind') == 'throttle':
             throttle_case(ctx, c['case'], D_thr)
-    for _ in range(ctx.scale(600, 15000)):
+    for _ in range(ctx.scale(1500, 20000)):
         c = gen_throttle_case(r)
         if r.random() < 0.3:
             c['esc'] = 'cancel'
@@ -1388,7 +1399,7 @@ def run(ctx: fw.Ctx) -> int:
     for c in corpus:
         if c.get('kind') == 'vault':
             vault_case(ctx, c['case'], T_vault)
-    for _ in range(ctx.scale(400, 8000)):
+    for _ in range(ctx.scale(800, 8000)):
         c = gen_vault_case(r)
         vault_case(ctx, c, T_vault)
         ctx.sample({'vault': c}, limit=5)
@@ -1398,7 +1409,7 @@ def run(ctx: fw.Ctx) -> int:
     for c in corpus:
         if c.get('kind') == 'proc':
             proc_case(ctx, c['case'])
-    for _ in range(ctx.scale(150, 2500)):
+    for _ in range(ctx.scale(300, 2500)):
         c = gen_proc_case(r)
         proc_case(ctx, c)
         ctx.sample({'proc': c}, limit=6)
@@ -1407,10 +1418,22 @@ def run(ctx: fw.Ctx) -> int:
 
 
 def replay(ctx: fw.Ctx, body: dict) -> bool:
+    """Re-run one recorded case on the current kopf; True iff the property (still) fails on it.
+    Known-finding matchers are switched off: a replay answers for the input, not for the verdict."""
     ctx.matchers = {}
     ctx.findings = []
     case = body.get('case') or {}
-    kind = body.get('case_kind') or case.get('_kind') or 'request'
-    if 'script' in case:
+    if 'requesters' in case:
+        vault_case(ctx, case, [])
+    elif 'events' in case:
+        proc_case(ctx, case)
+    elif 'eps' in case:
+        throttle_case(ctx, case, [])
+    elif 'lat' in case:
+        call_case(ctx, case, [])
+    elif 'script' in case:
         request_case(ctx, case, [])
+    else:
+        fw.log('replay: the file names no failing input (a broken proof / correspondence only)')
+        return False
     return bool(ctx.failures)
